@@ -161,11 +161,13 @@ def flush_complete(ctx, pfx):
            'record-holding fields of TimedCache: %s' % holding)
     for f in holding:
         cleared = False
+        cblocks = []
         for ev in fl.events():
             for c in ev['calls']:
                 if isinstance(c, tuple) and c[0] == 'call' and (short(c[2] or c[1]) or '').endswith('::clear') and \
                         access_path(arg(c, 0)) == 'self.' + f:
                     cleared = True
+                    cblocks.append(ev['pos'][0])
         for pos, s in fl.stmts():
             if s.get('k') == 'assign' and '*' in s['p'][1:]:
                 rv = fl._expr_rvalue(s['r'], pos, 0)
@@ -174,8 +176,14 @@ def flush_complete(ctx, pfx):
                 base = fl.expr_place([s['p'][0]], pos)
                 if has_leaf(base, 'self.' + f) and any(x[0] == 'call' and (short(x[2] or x[1]) or '').endswith('::write') for x in walk(base)):
                     cleared = True
-        ctx.ob('%s.COVER.flush[%s]' % (pfx, f), 'RF-COVER', cleared, fl.path, '%s:%s' % (fl.file, fl.line),
-               'flush clears TimedCache.%s' % f if cleared else 'TimedCache::flush leaves record-holding field `%s` untouched' % f,
+                    cblocks.append(pos[0])
+        # ... on EVERY path: a flush that can return early (e.g. while cleaning is disabled) is silently dropped and
+        # the never-expiring epoch-record slot keeps serving the stale record (seeded change C16-r1-b)
+        skip = bool(cblocks) and bool(fl.exits((0, 0), avoid_blocks=cblocks) - {'Diverge'})
+        ctx.ob('%s.COVER.flush[%s]' % (pfx, f), 'RF-COVER', cleared and not skip, fl.path, '%s:%s' % (fl.file, fl.line),
+               'flush clears TimedCache.%s on every path' % f if cleared and not skip else
+               ('TimedCache::flush can return without clearing `%s` (conditional flush)' % f if cleared else
+                'TimedCache::flush leaves record-holding field `%s` untouched' % f),
                key='RF-COVER|flush|%s' % f)
 
 
@@ -241,8 +249,12 @@ def put_unconditional(ctx, pfx):
                     some = [tb for v, tb in b.blocks[sw]['t']['vals'] if names.get(v) == 'Some']
                     if some and h in b.reach_avoiding(some, avoid_blocks=ins + slot):
                         bad = 'an iteration of batch_put can complete without storing its record'
+                # the loop itself must be on every path: an early return before it (e.g. "batch larger than the memory
+                # limit") leaves older copies of the written records in the cache (seeded change C14-r1-b)
+                if bad is None and hdr and (b.exits((0, 0), avoid_blocks=hdr) - {'Diverge'}):
+                    bad = 'batch_put can return without iterating over the records at all'
                 ok = bad is None and bool(hdr)
-                detail = 'every iteration of batch_put stores its record' if ok else (bad or 'no loop over the records found')
+                detail = 'every iteration of batch_put stores its record, and the loop is on every path' if ok else (bad or 'no loop over the records found')
         ctx.ob('%s.ORDER.put_unconditional[%s]' % (pfx, fn), 'RF-ORDER', ok, b.path, '%s:%s' % (b.file, b.line), detail,
                key='RF-ORDER|put_unconditional|%s' % fn)
 
